@@ -56,6 +56,22 @@ def tags_of(beh):
             t.add("stage:%s" % a.get("kind"))
         else:
             t.add(k)
+        if k in ("Rebase", "MergeSquash"):
+            # shape of the rewritten range: commits since the last switch, and which of them hold AI lines
+            j = i - 1
+            shape = []
+            ai_pending = False
+            seg = []
+            while j >= 0 and beh[j]["a"] not in ("Switch", "Branch"):
+                seg.append(beh[j])
+                j -= 1
+            for b2 in reversed(seg):
+                if b2["a"] == "Edit" and b2["who"] != "H":
+                    ai_pending = True
+                if b2["a"] in ("Commit", "Amend"):
+                    shape.append("A" if ai_pending else "h")
+                    ai_pending = False
+            t.add("%s-range:%s" % (k, "".join(shape)))
         if k in ("Rebase", "CherryPick", "Amend", "MergeSquash", "Switch"):
             # what happened just before: pending work? how many commits on each side?
             t.add("%s:after:%s" % (k, beh[i - 1]["a"] if i else "-"))
